@@ -49,12 +49,13 @@ type Op struct {
 }
 
 type Case struct {
-	Path        string `json:"path"` // catar = UnTar(LocalFS) | index = UnTarIndex over a LocalStore
-	Ops         []Op   `json:"ops"`  // after the implicit root directory entry
+	Path        string `json:"path"`               // catar = UnTar(LocalFS) | index = UnTarIndex over a LocalStore
+	Ops         []Op   `json:"ops"`                // after the implicit root directory entry
 	Unclosed    int    `json:"unclosed,omitempty"` // that many innermost open directories get no GOODBYE at the end
 	Workers     int    `json:"workers,omitempty"`
 	NoSameOwner bool   `json:"no_same_owner,omitempty"`
 	NoSamePerm  bool   `json:"no_same_perm,omitempty"`
+	PreLink     string `json:"prelink,omitempty"` // dest/l exists before the run as a symlink to this target (left by an earlier unpack)
 }
 
 func (o Op) fullName() string {
@@ -84,6 +85,8 @@ func nameKind(o Op) string {
 	switch {
 	case len(n) > 255:
 		return "long"
+	case strings.Contains(n, "\x00"):
+		return "nul"
 	case n == "":
 		return "empty"
 	case n == ".":
@@ -362,6 +365,9 @@ func runReal(c Case) (o hx.Outcome) {
 	root := filepath.Join(scratch, "root")
 	nonce := hx.Hash8([]byte(scratch))
 	buildTree(root, nonce)
+	if c.PreLink != "" {
+		must(os.Symlink(c.PreLink, filepath.Join(root, destRel, "l")))
+	}
 	must(os.WriteFile(filepath.Join(root, "job/a.catar"), archive, 0o644))
 	chunks := 0
 	if c.Path == "index" {
@@ -427,6 +433,11 @@ func runReal(c Case) (o hx.Outcome) {
 	depth, maxDepth := 0, 0
 	var symNames []string
 	symThenEntry, absTarget, crossed := false, false, false
+	if c.PreLink != "" {
+		symNames = append(symNames, "l")
+		o.Class("symlink-in-dest-before-the-run")
+		absTarget = strings.HasPrefix(c.PreLink, "/")
+	}
 	kinds := map[string]bool{}
 	ei := 0
 	for _, op := range c.Ops {
@@ -515,8 +526,8 @@ func runReal(c Case) (o hx.Outcome) {
 		result = "error"
 	}
 	o.Desc = map[string]any{"path": c.Path, "ops": shape, "archive_bytes": len(archive), "chunks": chunks,
-		"entries_reached": nReached, "entries": len(entries), "result": result, "changes_outside": len(changes)}
-	o.Key = c.Path + "|" + strings.Join(shape, "|")
+		"prelink": c.PreLink, "entries_reached": nReached, "entries": len(entries), "result": result, "changes_outside": len(changes)}
+	o.Key = c.Path + "|" + c.PreLink + "|" + strings.Join(shape, "|")
 	obs := observed{Result: res.Err, Changes: changes, Stderr: res.Stderr}
 	if res.Err == "" {
 		obs.Result = "nil"
@@ -709,11 +720,13 @@ func genName(t *rapid.T, kind string, syms []string, o *Op) {
 		}
 	case "nameless":
 		o.NoName = true
+	case "nul":
+		o.Name = rapid.SampledFrom([]string{"x\x00y", "\x00", "..\x00", "../victim\x00", "a\x00/../../victim", "\x00/../victim"}).Draw(t, "nul")
 	}
 }
 
 var allNameKinds = []string{"plain", "plain", "plain", "plain", "dotdot", "dotdot-prefix", "dotdot-prefix", "inner-dotdot", "absolute",
-	"slash", "slash", "empty", "dot", "dot-slash", "long", "symlink-name", "nameless"}
+	"slash", "slash", "empty", "dot", "dot-slash", "long", "symlink-name", "nameless", "nul"}
 
 func genEntry(t *rapid.T, kinds []string, nameKinds []string, syms []string) Op {
 	var o Op
@@ -744,6 +757,9 @@ func genCase(t *rapid.T) Case {
 	c.NoSameOwner = rapid.IntRange(0, 9).Draw(t, "nso") == 0
 	c.NoSamePerm = rapid.IntRange(0, 9).Draw(t, "nsp") == 0
 	c.Unclosed = rapid.SampledFrom([]int{0, 0, 0, 0, 1, 9}).Draw(t, "unclosed")
+	if rapid.IntRange(0, 5).Draw(t, "prelink") == 0 {
+		c.PreLink = rapid.SampledFrom(symTargets).Draw(t, "prelinktarget")
+	}
 
 	// any nesting depth: the scenario sits inside 0..3 plain directories
 	wrap := rapid.SampledFrom([]int{0, 0, 0, 1, 1, 2, 3}).Draw(t, "wrap")
@@ -760,6 +776,9 @@ func genCase(t *rapid.T) Case {
 		}
 	}
 	var syms []string
+	if c.PreLink != "" {
+		syms = append(syms, "l")
+	}
 	for _, o := range ops {
 		if o.K == "sym" {
 			syms = append(syms, o.Name)
@@ -870,10 +889,10 @@ var spec = &hx.Spec[Case]{
 	Level: "exploration",
 	Rule: "cases = hostile catar element sequences (own encoder, names verbatim, well-formed goodbye tables) unpacked by UnTar(LocalFS) or UnTarIndex(LocalStore) " +
 		"in a chrooted child; non-trivial = the unpacker was handed (all earlier entries accepted) at least one entry whose name has a '..' component or a '/', " +
-		"or an entry whose path crosses a symlink made earlier by the same archive; distinct by (path, sequence of entry kinds, names, symlink targets)",
+		"or an entry whose path crosses a symlink made earlier by the same archive (or left in dest by an earlier unpack); distinct by (path, sequence of entry kinds, names, symlink targets)",
 	Assumptions: []string{
 		"oracle: lstat fields (type, mode, owner, mtime), link targets, device numbers and file contents of every object in the chroot tree outside dest are equal before and after; directory mtime differences explained by a reported child are folded into that child; atime and ctime are not compared; xattrs are not compared",
-		"the destination exists, is an empty real directory, and nothing but the unpacker touches the tree",
+		"the destination exists and is a real directory, empty or holding one symlink 'l' (as an earlier unpack could leave it); nothing but the unpacker touches the tree",
 		"the child records FilesystemWriter calls through a pass-through wrapper around desync.LocalFS (used for attribution and class counting only, the verdict is the parent's snapshot difference)",
 		"archives are chunked in the parent with desync.ChunkStream (min 64, avg 192, max 768) into an uncompressed LocalStore inside the chroot tree",
 		"runs as root: chown, mknod and chroot succeed",
@@ -881,7 +900,7 @@ var spec = &hx.Spec[Case]{
 	Required: []string{"path:catar", "path:index",
 		"name:dotdot", "name:dotdot-prefix", "name:inner-dotdot", "name:absolute", "name:slash", "name:empty", "name:dot", "name:dot-slash", "name:long",
 		"name:symlink-name", "name:nameless", "symlink-then-entry", "absolute-symlink-target",
-		"entry:dir", "entry:file", "entry:sym", "entry:dev", "result:error"},
+		"entry:dir", "entry:file", "entry:sym", "entry:dev", "result:error", "result:nil", "entry-path-crosses-archive-symlink", "symlink-in-dest-before-the-run"},
 	Gen: genCase,
 	Run: run,
 }
@@ -940,7 +959,7 @@ var enumNames = []Op{
 	{Name: ".."}, {Name: "../victim"}, {Name: "../../victim"}, {Name: "../../../../../../victim"}, {Name: "../outside/new"}, {Name: "../outside/sub"},
 	{Name: "../vlink"}, {Name: "../"}, {Name: "a/../../victim"}, {Name: "a/../../../outside/f"}, {Name: "./../victim"},
 	{Name: "/abs/x"}, {Name: "/victim"}, {Name: "/../victim"}, {Name: "a/b"}, {Name: "a/"}, {Name: "a//b"},
-	{Name: ""}, {Name: "."}, {Name: "./x"}, {Name: "./."}, {Name: "n", Rep: 256}, {Name: "a/", Rep: 2100}, {Name: "../", Rep: 1400}, {NoName: true}, {Name: "x"},
+	{Name: ""}, {Name: "."}, {Name: "./x"}, {Name: "./."}, {Name: "n", Rep: 256}, {Name: "a/", Rep: 2100}, {Name: "../", Rep: 1400}, {NoName: true}, {Name: "x"}, {Name: "x\x00y"}, {Name: "../victim\x00"}, {Name: "..\x00"},
 }
 
 // TestEnum: every listed name as every entry kind at several nesting depths; every listed
@@ -1028,9 +1047,22 @@ func TestEnum(t *testing.T) {
 			}
 		}
 	}
+	// a symlink left in dest by an earlier unpack, then entries over/beneath it
+	for _, tg := range targets {
+		for _, f := range [][]Op{{{K: "dir", Name: "l"}, {K: "file", Name: "x"}}, {{K: "file", Name: "l/x"}}, {{K: "dir", Name: "l/sub"}},
+			{{K: "file", Name: "l"}}, {{K: "dev", Name: "l"}}, {{K: "sym", Name: "l", Target: ".."}, {K: "dir", Name: "l"}, {K: "file", Name: "victim"}}} {
+			var ops []Op
+			for _, o := range f {
+				ops = append(ops, attr(o))
+			}
+			for _, p := range pathFor() {
+				cases = append(cases, Case{Path: p, Ops: ops, Workers: 1, PreLink: tg})
+			}
+		}
+	}
 	hx.AddNote("enumerated_cases", len(cases))
 	if runPool(t, cases) {
-		hx.Exhaustive("listed hostile names x {dir,file,symlink,device} x nesting depths; listed symlink targets x entries beneath/over the link; replace-current-directory sequences")
+		hx.Exhaustive("listed hostile names x {dir,file,symlink,device} x nesting depths; listed symlink targets (made by the archive or present before) x entries beneath/over the link; replace-current-directory sequences")
 	}
 }
 
